@@ -102,7 +102,8 @@ type bridgeHist struct {
 	onHashes         func(start uint64, hashes [][]byte)
 	onBridgeReqs     func(*goattypes.BridgeRequests)
 	extraLocking     func(*blockOps)
-	acceptedDeposits []*depTruth // credited by accepted batches, in order, since the last reset
+	extraMembers     func() []*world.Member // relayer members beyond the genesis ones (joined candidates)
+	acceptedDeposits []*depTruth            // credited by accepted batches, in order, since the last reset
 	evmCtr           int
 	depositBurst     bool // mine and submit more deposits at once than one block may hand over
 }
@@ -555,7 +556,11 @@ func (b *bridgeHist) runBlock() bool {
 
 // refreshGroup reads the relayer group for the next block.
 func (b *bridgeHist) refreshGroup() bool {
-	g, err := b.lh.ch.Group()
+	pools := [][]*world.Member{b.lh.ch.W.Members}
+	if b.extraMembers != nil {
+		pools = append(pools, b.extraMembers())
+	}
+	g, err := b.lh.ch.Group(pools...)
 	if err != nil {
 		b.lh.c.Inconclusive("relayer group: %v", err)
 		return false
